@@ -63,6 +63,31 @@ def Outcome.obs (o : Outcome) (ts : TunnelState) : Obs :=
       | .forward _, _ => true
       | _, _ => false }
 
+/-- The tunnel a connection ends up on: a request that found nothing at arrival and is attached as target /
+forwarded (or receives bytes) later joined the tunnel that appeared meanwhile; a source creates its own. -/
+def attachedTs (ts : TunnelState) (late : Late) (att : Attach) : TunnelState :=
+  match ts, late with
+  | .none, .route m n _ => if att == .source then ts else .remote m n
+  | _, _ => ts
+
+/-- The property when the tunnel state changes during the request: the acknowledgement is judged against the
+state at arrival (`holds`); whatever the connection is attached to, or receives bytes from, afterwards must be a
+tunnel of a mapping it is entitled to.  (A request entitled at arrival may be acknowledged and later dropped
+because the tunnel that appeared belongs to another mapping: it is never attached and gets no traffic.) -/
+def holdsDyn (w : World) (id : ConnIdent) (req : Req) (ts : TunnelState) (late : Late) (o : Obs) : Bool :=
+  holds w id req ts o &&
+  ((o.att == .none && !o.data) || entitledB w id req (attachedTs ts late o.att))
+
+/-- Observation predicted for a request with a late-appearing tunnel: bytes of the late bridge's source reach a
+connection attached to it as target. -/
+def Outcome.obsDyn (o : Outcome) (ts : TunnelState) (late : Late) : Obs :=
+  { ack := o.ack, att := o.attach,
+    data := match o.attach, ts, late with
+      | .target, .bridge _ served, _ => !served
+      | .target, .none, .route _ _ _ => true
+      | .forward _, _, _ => true
+      | _, _, _ => false }
+
 /-- What the session manager's bookkeeping guarantees about a connection (established by the auth handlers,
 property C03): a client id is set only together with the authenticated flag. -/
 def identWF (id : ConnIdent) : Bool := id.clientID == 0 || id.authenticated
